@@ -162,3 +162,34 @@ package cafs
 //@   call r.addToCache#1 assume r.leafSize == old(r.leafSize) && r.keys == old(r.keys)
 //@   loop 1 invariant [position] index*r.leafSize + offset == off + readBytes && offset < r.leafSize && r.leafSize == old(r.leafSize)
 //@   ensures [count] 0 <= readBytes && readBytes <= len(data)
+
+// ---- streaming to a writer (C03, C01): WriteTo on an io.WriterAt (every file: the bundle download path)
+// each leaf goes to the destination at its own position, and only after its hash was verified with
+// the writer's convention (known finding K1 on the original code: no verification on this path)
+//@ func (*chunkReader).WriteTo
+//@   requires r != nil && r.truncation <= r.leafSize
+//@   loop 1 invariant [same-reader] r#1 == r
+//@   call WriteTo$1#1 assert [leaf] $index == rangeindex#1
+//@   call WriteTo$1#1 assert [position] $writeAt == rangeindex#1 * (r.leafSize - r.truncation)
+//@   call WriteTo$1#1 assert [blob-store] $cafs == r.fs
+
+//@ func (*chunkReader).WriteTo$1
+//@   requires index >= 0
+//@   call r.pather#1 pure
+//@   call Get#1 assert [leaf-blob] $self == cafs
+//@   call ReadAll#1 bind leafBytes = $ret0
+//@   call verifyHash#1 assert [key] $key == key
+//@   call verifyHash#1 assert [data] leafBytes_set && $data == leafBytes
+//@   call verifyHash#1 assert [last-flag] $isLastNode == (index+1 == len(r.keys) && uint32(len(leafBytes)) != r.leafSize)
+//@   call verifyHash#1 assert [node-offset] $offset == ite($isLastNode, index, index+1)
+//@   call verifyHash#1 bind vh = $ret0
+//@   call NewReader#1 assert [verified-bytes] leafBytes_set && $0 == leafBytes
+//@   call Copy#1 assert [only-verified-bytes-are-written] r.withVerifyHash ==> vh_set && vh == nil
+//@   call Copy#1 assert [at-leaf-position] asptr($dst, cafsWriterAt).offset == writeAt && asptr($dst, cafsWriterAt).written == 0 && asptr($dst, cafsWriterAt).w == writer
+
+// the wrapper writes each piece right after the previous one, starting at its offset
+//@ func (*cafsWriterAt).Write
+//@   requires cw != nil
+//@   call WriteAt#1 assert [next-position] $p == p && $off == cw.offset + cw.written
+//@   call WriteAt#1 bind wn = $ret0
+//@   ensures [advance] wn_set && n == wn && cw.written == old(cw.written) + wn && cw.offset == old(cw.offset)
